@@ -680,7 +680,14 @@ func genC16(g GenCtx) interface{} {
 			closed = true
 			switch rng.Intn(3) {
 			case 0:
-				sc.Acts = append(sc.Acts, TAct{Op: "close", Node: mons[rng.Intn(len(mons))]})
+				m := mons[rng.Intn(len(mons))]
+				sc.Acts = append(sc.Acts, TAct{Op: "close", Node: m})
+				if rng.Intn(2) == 0 {
+					// ... and the application re-attaches the very same Handler value
+					// to a new monitor (after a reconnect, say)
+					sc.Acts = append(sc.Acts, TAct{Op: "settle"})
+					mons = append(mons, b.add(b.parents[m], "monitor", TAct{ReuseOf: m + 1}))
+				}
 			case 1:
 				sc.Acts = append(sc.Acts, TAct{Op: "close", Node: -1})
 			default:
